@@ -3,7 +3,7 @@ from vlib import oracles, reharness
 from vlib.harness import Harness, register
 from harnesses.c01_documents import OUT, STUBS, _fns
 
-PLANS = ["cleanup", "two_runs_cleared", "failpause", "defer_failpause"]
+PLANS = ["cleanup", "two_runs_cleared", "failpause", "defer_failpause", "cleared_rewindable"]
 SYM = "plan index (clear_checkpoint at different positions, one or two runs, planned pauses), loop step k1 of a pause / deferred pause / suspension; optionally a second request"
 register(Harness("c10_one", "C10", lambda P: reharness.make_sweep(P, oracles.c10_nonresumable, plans=PLANS, kinds=["pause", "defer", "suspend"], decisions=["resume", "abort"]),
                  {"quick": dict(shards=16, budget_s=300, per_path_s=30), "thorough": dict(shards=16, budget_s=3000, per_path_s=30)},
